@@ -12,6 +12,8 @@ package main
 //	E (C03)  a tracked source with 1999 tokens left sends 16 x 250 requests at one instant from 16 goroutines: exactly 1999
 //	         are admitted.
 //
+//	F (C14)  connection limiter: 66000 sources hold a connection each; a newcomer is admitted all the same.
+//
 //	D (C14)  capacity 1 and a slow rate lookup: source A is tracked and out of tokens; a second request of A is slow in the
 //	         rate extractor while the first request of B arrives. Each request takes effect at one instant, so the four
 //	         answers (A2, B1, then B2, A3 one after the other) are those of the order A2,B1 (429 200 429 200: B evicts A)
@@ -27,13 +29,16 @@ import (
 	"fmt"
 	"net/http"
 	"net/http/httptest"
+	"net/url"
 	"os"
 	"runtime"
+	"strconv"
 	"strings"
 	"sync"
 	"sync/atomic"
 	"time"
 
+	"github.com/vulcand/oxy/v2/connlimit"
 	"github.com/vulcand/oxy/v2/internal/holsterv4/clock"
 	"github.com/vulcand/oxy/v2/ratelimit"
 	"github.com/vulcand/oxy/v2/utils"
@@ -85,6 +90,13 @@ func together(tl http.Handler, source string, g, k int) (admitted, rejected, oth
 	return
 }
 
+// discard is a ResponseWriter for requests whose answer nobody looks at
+type discard struct{}
+
+func (discard) Header() http.Header         { return http.Header{} }
+func (discard) Write(p []byte) (int, error) { return len(p), nil }
+func (discard) WriteHeader(int)             {}
+
 func one(tl http.Handler, source string) int {
 	r := httptest.NewRequest(http.MethodGet, "http://example.com/", nil)
 	r.Header.Set("X-Source", source)
@@ -96,9 +108,9 @@ func one(tl http.Handler, source string) int {
 func main() {
 	rounds := flag.Int("rounds", 300, "rounds per scenario")
 	g := flag.Int("g", 8, "goroutines")
-	only := flag.String("only", "", "run only this scenario (A, B, C, D or E)")
+	only := flag.String("only", "", "run only these scenarios (letters among A-F)")
 	flag.Parse()
-	skip := func(name string) bool { return *only != "" && *only != name }
+	skip := func(name string) bool { return *only != "" && !strings.Contains(*only, name) }
 	extract := utils.ExtractorFunc(func(r *http.Request) (string, int64, error) { return r.Header.Get("X-Source"), 1, nil })
 	ok := http.HandlerFunc(func(w http.ResponseWriter, r *http.Request) { w.WriteHeader(http.StatusOK) })
 	unfreeze := clock.Freeze(time.Date(2024, 5, 1, 0, 0, 0, 0, time.UTC))
@@ -267,6 +279,55 @@ func main() {
 				fail("C03", "E round %d: rate 1/h burst 2000, one request admitted before; %d goroutines x 250 requests of the source at one instant: %d admitted, %d rejected, %d other; exactly 1999 tokens were left", round, 2**g, adm, rej, oth)
 			}
 		}
+	}
+	// F (C14, connection limiter): 66000 sources hold one connection each at the same time (the limiter has no capacity
+	// option: any number of sources is within its terms); a source that holds none is admitted, one that holds its two is not
+	if !skip("F") {
+		hold := make(chan struct{})
+		var inside int64
+		cl, err := connlimit.New(http.HandlerFunc(func(w http.ResponseWriter, r *http.Request) {
+			if r.Header.Get("X-Hold") != "" {
+				atomic.AddInt64(&inside, 1)
+				<-hold
+			}
+			w.WriteHeader(http.StatusOK)
+		}), extract, 2)
+		if err != nil {
+			panic(err)
+		}
+		const crowd = 66000
+		var wg sync.WaitGroup
+		u, _ := url.Parse("http://example.com/")
+		for i := 0; i < crowd; i++ {
+			wg.Add(1)
+			go func(i int) {
+				defer wg.Done()
+				r := &http.Request{Method: http.MethodGet, URL: u, Header: http.Header{"X-Source": {"crowd-" + strconv.Itoa(i)}, "X-Hold": {"1"}}, Proto: "HTTP/1.1", ProtoMajor: 1, ProtoMinor: 1}
+				cl.ServeHTTP(discard{}, r)
+			}(i)
+		}
+		deadline := time.Now().Add(60 * time.Second)
+		for atomic.LoadInt64(&inside) < crowd && time.Now().Before(deadline) {
+			time.Sleep(5 * time.Millisecond)
+		}
+		if got := atomic.LoadInt64(&inside); got != crowd {
+			fail("C14", "F: %d sources each opened their first connection (limit 2 per source): only %d were admitted", crowd, got)
+		} else {
+			for k := 1; k <= 3; k++ {
+				w := httptest.NewRecorder()
+				r := httptest.NewRequest(http.MethodGet, "http://example.com/", nil)
+				r.Header.Set("X-Source", "latecomer")
+				if k == 3 {
+					r.Header.Set("X-Source", "crowd-7") // holds one already: this is its second, still allowed
+				}
+				cl.ServeHTTP(w, r)
+				if w.Code != http.StatusOK {
+					fail("C14", "F: while %d other sources hold one connection each, request %d of a source with fewer than 2 in flight was answered %d: decided by the traffic of others", crowd, k, w.Code)
+				}
+			}
+		}
+		close(hold)
+		wg.Wait()
 	}
 	n := atomic.LoadInt32(&failures)
 	fmt.Printf("rlstress: %d rounds, %d failures\n", *rounds, n)
